@@ -146,6 +146,8 @@ class ClassModel:
         self._resolved = False
         for st in node.body:
             if isinstance(st, ast.FunctionDef):
+                if any(isinstance(d, ast.Attribute) and d.attr in ('setter', 'deleter') for d in st.decorator_list):
+                    continue        # reading the attribute finds the getter; stores look the setter up themselves
                 self.attrs[st.name] = st
             elif isinstance(st, ast.Assign):
                 for tgt in st.targets:
@@ -390,7 +392,23 @@ class World:
         else:
             obj = mod.lookup(parts[0])
         for p in parts[1:]:
-            if isinstance(obj, ClassModel):
+            if isinstance(obj, ClassModel) and '@' in p:
+                # Class.name@getter / Class.name@setter: the two halves of a property
+                pname, half = p.split('@')
+                found = None
+                for cm in obj.mro():
+                    for st in cm.node.body:
+                        if isinstance(st, ast.FunctionDef) and st.name == pname:
+                            decos = [ast.unparse(d) for d in st.decorator_list]
+                            if (half == 'getter' and 'property' in decos) or \
+                                    (half == 'setter' and f'{pname}.setter' in decos):
+                                found = (cm, st)
+                    if found:
+                        break
+                if found is None:
+                    raise KeyError(target)
+                obj = Closure(found[1], None, found[0].module, f'{found[0].name}.{p}', cls=found[0])
+            elif isinstance(obj, ClassModel):
                 cls, node = obj.find(p)
                 if node is None:
                     raise KeyError(target)
@@ -478,6 +496,8 @@ class Interp:
             return heap.truth_opaque(self, v)
         if isinstance(v, SV):
             raise Unsupported(f'truth of {v!r}')
+        if hasattr(v, 'hm_truth'):
+            return v.hm_truth(self)
         if isinstance(v, SObj):
             c, node = v.cls.find('__bool__')
             if node is not None:
@@ -1349,6 +1369,9 @@ class Interp:
             if member is None:
                 if name == '__class__':
                     return obj.cls
+                if getattr(obj, 'partial', False):
+                    # the contract's parameter domain describes only some fields of this object
+                    raise Unsupported(f"field '{name}' of {obj.cls.name} is not described by the contract's domain", node)
                 self.raise_exc('AttributeError', f"'{obj.cls.name}' has no attribute '{name}'", node)
             return self.bind_member(obj, c, member, name)
         if isinstance(obj, ClassModel):
@@ -1636,6 +1659,12 @@ class Interp:
         from .vc import AbstractFn
         if isinstance(func, AbstractFn):
             return func.call(self, args, kwargs, node)
+        if isinstance(func, SObj):
+            c, fn = func.cls.find('__call__')
+            if fn is not None:
+                return self.call_function(Closure(fn, None, c.module, f'{c.name}.__call__', cls=c),
+                                          [func] + list(args), kwargs)
+            self.raise_exc('TypeError', f'{func.cls.name} object is not callable', node)
         if func is None or isinstance(func, (SV, int, float, str, tuple)):
             self.raise_exc('TypeError', f'{type(func).__name__} object is not callable', node)
         raise Unsupported(f'call of {func!r}', node)
